@@ -47,8 +47,9 @@ def dump(name):
     return recs
 
 
-def dump_bytes(data):
-    """[(index, record id, ns)] of an event-log file given as bytes, from the independent reader"""
+def dump_bytes(data, allow_err=False):
+    """[(index, record id, ns)] of an event-log file given as bytes, from the independent reader (allow_err: records it
+    cannot render are left out instead of being an error of the harness)"""
     import os
     d = os.path.join(core.scratch_root(), "journals")
     os.makedirs(d, exist_ok=True)
@@ -65,6 +66,8 @@ def dump_bytes(data):
             continue
         a, b, c = ln.split("\t", 2)
         if b == "ERR":
+            if allow_err:
+                continue
             raise RuntimeError("independent evtx reader failed on a re-stamped file: %s" % c)
         recs.append((int(a), int(b), int(c)))
     return recs
@@ -86,15 +89,34 @@ def restamped(rng):
     pattern = rng.choice(evtxmut.PATTERNS) + ("" if perm is None else "+chunks%s" % "".join(str(k) for k in perm)) + ("" if small is None else "+first%d" % small)
     times = evtxmut.gen_times(rng, evtxmut.records(base), pattern.split("+")[0])
     data = evtxmut.restamp(base, times)
+    torn = None
+    nrec = len(times)
+    if nrec >= 3 and rng.random() < 0.15:
+        # one record (not the last one) that no reader can render. What is stored after it must still be printed -- as far as
+        # the independent reader can render it: a record may lean on a template defined inside the torn one
+        torn = rng.randrange(0, nrec - 1)
+        data = evtxmut.tear_record(data, torn)
+    stale = None
     if rng.random() < 0.3:
         # a "dirty" log: stored chunk checksums that no longer match (records intact)
         nch = evtxmut.used_chunks(data)
         which = sorted(set((rng.randrange(nch), rng.choice((52, 52, 124))) for _ in range(rng.randint(1, nch))))
         data = evtxmut.stale_checksums(data, which)
-        pattern += "+stale" + ",".join("%d:%d" % w for w in which)
-    recs = dump_bytes(data)
-    if [t for (_, _, t) in recs] != [t // 1000 * 1000 for t in times]:      # the evtx crate reads FILETIMEs to the microsecond
-        raise RuntimeError("re-stamped event log: the independent reader does not see the times written")
+        stale = which
+    if torn is not None:
+        pattern += "+torn%d" % torn
+    if stale is not None:
+        pattern += "+stale" + ",".join("%d:%d" % w for w in stale)
+    recs = dump_bytes(data, allow_err=torn is not None)
+    seen = [t // 1000 * 1000 for (k_, t) in enumerate(times) if k_ != torn]
+    got = [t for (_, _, t) in recs]
+    if torn is None:
+        if got != seen:      # the evtx crate reads FILETIMEs to the microsecond
+            raise RuntimeError("re-stamped event log: the independent reader does not see the times written")
+    else:
+        it = iter(seen)
+        if not all(any(x == y for y in it) for x in got):
+            raise RuntimeError("torn record %d: the independent reader sees times that were not written" % torn)
     return data, recs, times, pattern
 
 
@@ -188,6 +210,8 @@ def run_case(seed, i, tier):
             cr.probes["stale_chunk_checksums"] += 1
         if "+first" in pattern:
             cr.probes["small_log_first_records_only"] += 1
+        if "+torn" in pattern:
+            cr.probes["one_record_torn"] += 1
     rtimes = set(t for (_, _, t) in recs)
     if a in rtimes or b in rtimes:
         cr.probes["bound_exactly_on_a_record_time"] += 1
@@ -245,9 +269,11 @@ def classes_of(rp):
         if "+first" in pat:
             base, _ = evtxmut.first_records(base, int(pat.split("+first")[1].split("+")[0]))
         data = evtxmut.restamp(base, rp["times_ns"])
+        if "+torn" in pat:
+            data = evtxmut.tear_record(data, int(pat.split("+torn")[1].split("+")[0]))
         if "+stale" in pat:
-            data = evtxmut.stale_checksums(data, [tuple(int(x) for x in w.split(":")) for w in pat.split("+stale")[1].split(",")])
-        recs = dump_bytes(data)
+            data = evtxmut.stale_checksums(data, [tuple(int(x) for x in w.split(":")) for w in pat.split("+stale")[1].split("+")[0].split(",")])
+        recs = dump_bytes(data, allow_err="+torn" in pat)
     else:
         recs = dump(rp["fixture"])
     if not cl and check(res.stdout, expected_ids(recs, rp["a"], rp["b"])):
